@@ -824,55 +824,212 @@ func (b *Body) refusalReasons(l *Ledger, ai *applyInfo) {
 			// the deciding edges: those the return is control dependent on, and — where such an
 			// edge leaves a block that does nothing but evaluate the next operand of a compound
 			// condition — the edges that block depends on in turn (`a && b` is two branches)
-			deps := b.controlDeps(r.Block())
-			seenDep := map[edge]bool{}
-			for i := 0; i < len(deps) && i < 16; i++ {
-				e := deps[i]
-				if seenDep[e] {
-					continue
-				}
-				seenDep[e] = true
-				if len(e.From.Preds) == 1 && operandBlock(e.From) {
-					deps = append(deps, b.controlDeps(e.From)...)
-				}
-			}
-			done := map[edge]bool{}
-			for _, e := range deps {
-				if done[e] {
-					continue
-				}
-				done[e] = true
-				iff, ok := lastInstr(e.From).(*ssa.If)
-				if !ok {
-					continue
-				}
-				why := ""
-				atoms := condAtoms(iff.Cond, e.Succ == 0, 0)
-				allOK := true
-				for _, at := range atoms {
-					if _, isPhi := at.V.(*ssa.Phi); isPhi && len(atoms) > 1 {
-						continue // the conjunction itself; its operands follow
-					}
-					if w := b.admissibleReason(at.V, 0); w != "" {
-						why = w
-					} else {
-						allOK = false
-					}
-				}
-				if !allOK {
-					why = ""
-				}
-				if why == "" {
-					bad = "the refusal at " + b.posOf(r) + " is decided by the condition at " + b.posOf(iff) + " (" + describeValue(iff.Cond) + "), which is neither a failed lookup or call, nor a constant, an option, a node's verdict or a container's type: an applicable operation can be turned away"
-				} else {
-					reasons = append(reasons, why)
-				}
+			bad, reasons = b.refusalVerdict(r, func(v ssa.Value) string { return b.admissibleReason(v, 0) })
+			if bad != "" {
+				bad += ": an applicable operation can be turned away"
 			}
 			if bad != "" {
 				l.add("R-SUCCESS", b.Name, key, b.posOf(r), Violated, bad, true)
 			} else {
 				l.add("R-SUCCESS", b.Name, key, b.posOf(r), Discharged, "decided by: "+strings.Join(dedup(reasons), "; "), true)
 			}
+		}
+	}
+}
+
+// refusalVerdict: the edges a refusing return is control dependent on — and, where such an
+// edge leaves a block that does nothing but evaluate the next operand of a compound condition,
+// the edges that block depends on in turn (`a && b` is two branches) — are each decided by
+// something admit names a reason for.
+func (b *Body) refusalVerdict(r *ssa.Return, admit func(ssa.Value) string) (bad string, reasons []string) {
+	deps := b.controlDeps(r.Block())
+	seenDep := map[edge]bool{}
+	for i := 0; i < len(deps) && i < 16; i++ {
+		e := deps[i]
+		if seenDep[e] {
+			continue
+		}
+		seenDep[e] = true
+		if len(e.From.Preds) == 1 && operandBlock(e.From) {
+			deps = append(deps, b.controlDeps(e.From)...)
+		}
+	}
+	done := map[edge]bool{}
+	for _, e := range deps {
+		if done[e] {
+			continue
+		}
+		done[e] = true
+		iff, ok := lastInstr(e.From).(*ssa.If)
+		if !ok {
+			continue
+		}
+		why := ""
+		atoms := condAtoms(iff.Cond, e.Succ == 0, 0)
+		allOK := true
+		for _, at := range atoms {
+			if _, isPhi := at.V.(*ssa.Phi); isPhi && len(atoms) > 1 {
+				continue // the conjunction itself; its operands follow
+			}
+			if w := admit(at.V); w != "" {
+				why = w
+			} else {
+				allOK = false
+			}
+		}
+		if !allOK {
+			why = ""
+		}
+		if why == "" {
+			bad = "the refusal at " + b.posOf(r) + " is decided by the condition at " + b.posOf(iff) + " (" + describeValue(iff.Cond) + "), which is neither a failed lookup or call, nor a constant, an option, a node's verdict or a container's type"
+		} else {
+			reasons = append(reasons, why)
+		}
+	}
+	return bad, reasons
+}
+
+// lengthDerived: a length, or a length plus or minus a constant.
+func lengthDerived(v ssa.Value) bool {
+	v = unwrapConv(v)
+	switch x := v.(type) {
+	case *ssa.Call:
+		if bi, ok := x.Call.Value.(*ssa.Builtin); ok && (bi.Name() == "len" || bi.Name() == "cap") {
+			return true
+		}
+	case *ssa.BinOp:
+		if x.Op == token.ADD || x.Op == token.SUB {
+			if _, ok := x.Y.(*ssa.Const); ok {
+				return lengthDerived(x.X)
+			}
+			if _, ok := x.X.(*ssa.Const); ok {
+				return lengthDerived(x.Y)
+			}
+		}
+	}
+	return false
+}
+
+// sizeCap: a length compared with a constant larger than 2 — not an emptiness or has-a-token
+// test but a cap on how much there may be.
+func sizeCap(x *ssa.BinOp) bool {
+	for _, p := range [][2]ssa.Value{{x.X, x.Y}, {x.Y, x.X}} {
+		if k, ok := intConst(p[0]); ok && (k > 2 || k < -2) && lengthDerived(p[1]) {
+			return true
+		}
+	}
+	return false
+}
+
+// resolverAndMergeRefusals: the same discipline for the two other places that can turn a
+// request away. (R-SUCCESS) The resolver answers "no such container" only where a lookup
+// yielded nothing or failed, a conversion failed, or the pointer is not a pointer at all — not
+// on the number of reference tokens (documents grow deeper than any text the decoder accepts,
+// one add at a time). (R-GATE) CreateMergePatch and the two functions it hands over to refuse
+// only on the verdict of the gate or of the library's own look at the texts, on a decoder's
+// error, on a decoded nil or on the two lists differing in length — not on a property of the
+// bytes RFC 8259 does not ask for (UTF-8 validity, a length).
+func (b *Body) resolverAndMergeRefusals(l *Ledger, rule string) {
+	// what a function of the library (or the codec) answered, as such or as one of its results
+	libVerdict := func(v ssa.Value) *ssa.Function {
+		v = unwrapConv(v)
+		if ex, ok := v.(*ssa.Extract); ok {
+			v = ex.Tuple
+		}
+		if call, ok := v.(*ssa.Call); ok {
+			if f := call.Call.StaticCallee(); f != nil && (f.Pkg == b.Lib || (b.Codec != nil && f.Pkg == b.Codec)) {
+				return f
+			}
+		}
+		return nil
+	}
+	admit := func(v ssa.Value) string {
+		c, _ := stripNot(v)
+		if x, ok := c.(*ssa.BinOp); ok {
+			if sizeCap(x) {
+				return ""
+			}
+			// the walk's own loop: an induction variable against the length of what is walked
+			if _, isPhi := unwrapConv(x.X).(*ssa.Phi); isPhi && lengthDerived(x.Y) {
+				return "the walk's loop"
+			}
+			if lengthDerived(x.X) && lengthDerived(x.Y) {
+				return "two lengths compared"
+			}
+		}
+		if f := libVerdict(c); f != nil {
+			return "the verdict of " + fname(f)
+		}
+		if x, ok := c.(*ssa.BinOp); ok && (x.Op == token.EQL || x.Op == token.NEQ) {
+			if f, g := libVerdict(x.X), libVerdict(x.Y); f != nil && g != nil {
+				return "two verdicts of " + fname(f) + " compared"
+			}
+		}
+		return b.admissibleReason(v, 0)
+	}
+	if rule == "R-SUCCESS" {
+		fo := b.roleFn("findObject")
+		if fo == nil || len(fo.Blocks) == 0 {
+			return
+		}
+		n := 0
+		bad := ""
+		var reasons []string
+		for _, r := range liveReturns(fo) {
+			if len(r.Results) == 0 || !isNilConst(r.Results[0]) {
+				continue
+			}
+			n++
+			w, rs := b.refusalVerdict(r, admit)
+			if w != "" {
+				bad = w + ": a location that exists is reported as absent"
+			}
+			reasons = append(reasons, rs...)
+		}
+		key := "findObject: answers with no container only for a reason a pointer can lead nowhere for"
+		if bad != "" {
+			l.add(rule, b.Name, key, b.rel(fo.Pos()), Violated, bad, true)
+		} else if n > 0 {
+			l.add(rule, b.Name, key, b.rel(fo.Pos()), Discharged, fmt.Sprintf("%d nil answer(s), decided by: %s", n, strings.Join(dedup(reasons), "; ")), true)
+		}
+		return
+	}
+	for _, name := range []string{"CreateMergePatch", "createObjectMergePatch", "createArrayMergePatch"} {
+		fn := fnOf(b.Lib, name)
+		if fn == nil || len(fn.Blocks) == 0 {
+			continue
+		}
+		ei := errResultIndex(fn)
+		if ei < 0 {
+			continue
+		}
+		n := 0
+		bad := ""
+		var reasons []string
+		for _, r := range liveReturns(fn) {
+			rv := retVal(r, ei)
+			if isNilConst(rv) {
+				continue
+			}
+			// the error of a call, handed on
+			if _, _, ok := asResult(rootErr(rv)); ok {
+				continue
+			}
+			n++
+			w, rs := b.refusalVerdict(r, admit)
+			if w != "" {
+				bad = w + ": two well-formed documents are refused on a ground the grammar does not name"
+			}
+			reasons = append(reasons, rs...)
+		}
+		if n == 0 {
+			continue
+		}
+		key := name + ": refuses only what the gate, a decoder or the library's own look at the texts refused"
+		if bad != "" {
+			l.add(rule, b.Name, key, b.rel(fn.Pos()), Violated, bad, true)
+		} else {
+			l.add(rule, b.Name, key, b.rel(fn.Pos()), Discharged, fmt.Sprintf("%d refusal(s), decided by: %s", n, strings.Join(dedup(reasons), "; ")), true)
 		}
 	}
 }
@@ -901,6 +1058,9 @@ func (b *Body) admissibleReason(v ssa.Value, depth int) string {
 		}
 		return why
 	case *ssa.BinOp:
+		if sizeCap(x) {
+			return ""
+		}
 		for _, o := range []ssa.Value{x.X, x.Y} {
 			if _, isK := o.(*ssa.Const); isK {
 				return "a comparison with a constant"
@@ -1685,5 +1845,395 @@ func (b *Body) noUnsafe(l *Ledger) {
 		} else {
 			l.add("R-EFFECT", lab, key, "", Discharged, "no import of unsafe and no unsafe.Pointer conversion", true)
 		}
+	}
+}
+
+// noGoroutines (R-GLOBALS): the library and the codec start no goroutines. What a call returns
+// is computed on the caller's goroutine in program order; work handed to goroutines comes
+// back in completion order (an array of element patches permuted) or needs shared state.
+func (b *Body) noGoroutines(l *Ledger) {
+	for _, pkg := range []*ssa.Package{b.Lib, b.Codec} {
+		if pkg == nil {
+			continue
+		}
+		lab := b.Name
+		if pkg == b.Codec {
+			lab = "codec"
+		}
+		key := "package " + pkg.Pkg.Name() + " starts no goroutine"
+		bad := ""
+		for _, fn := range b.srcFuncs(pkg) {
+			allInstrs(fn, func(i ssa.Instruction) {
+				if _, ok := i.(*ssa.Go); ok {
+					bad = "go statement in " + fname(fn) + " at " + b.posOf(i) + ": results assembled by goroutines depend on their schedule"
+				}
+			})
+		}
+		if bad != "" {
+			l.add("R-GLOBALS", lab, key, "", Violated, bad, true)
+		} else {
+			l.add("R-GLOBALS", lab, key, "", Discharged, "no go statement", true)
+		}
+	}
+}
+
+// marshalerOutputCompacted (R-ESCSET, codec): what a MarshalJSON method hands back reaches the
+// output only through compact, under the caller's escapeHTML flag. compact is where the text of
+// a raw message is checked, stripped of white space and escaped; writing the bytes as they are
+// makes the flag decide more than the spelling of < > & U+2028/9 (white space inside untouched
+// values stays or goes with it).
+func (b *Body) marshalerOutputCompacted(l *Ledger) {
+	if b.Codec == nil {
+		return
+	}
+	n := 0
+	for _, fn := range b.srcFuncs(b.Codec) {
+		allInstrs(fn, func(i ssa.Instruction) {
+			call, ok := i.(*ssa.Call)
+			if !ok || !call.Call.IsInvoke() || call.Call.Method.Name() != "MarshalJSON" {
+				return
+			}
+			n++
+			key := fmt.Sprintf("%s: output of MarshalJSON #%d goes to the buffer through compact only", fname(fn), n)
+			bad := ""
+			nCompact := 0
+			for _, ex := range extractOf(call, 0) {
+				for _, r := range *ex.Referrers() {
+					switch x := r.(type) {
+					case *ssa.DebugRef:
+					case *ssa.Call:
+						f := x.Call.StaticCallee()
+						if f != nil && f.Pkg == b.Codec && strings.Contains(strings.ToLower(f.Name()), "compact") {
+							nCompact++
+							continue
+						}
+						if bi, isB := x.Call.Value.(*ssa.Builtin); isB && bi.Name() == "len" {
+							continue
+						}
+						bad = "the bytes are handed to " + calleeLabel(&x.Call) + " at " + b.posOf(x) + " without passing compact"
+					default:
+						bad = fmt.Sprintf("the bytes are used by %T at %s", r, b.posOf(r))
+					}
+				}
+			}
+			if bad == "" && nCompact == 0 {
+				bad = "the bytes never reach compact"
+			}
+			if bad != "" {
+				l.add("R-ESCSET", "codec", key, b.posOf(call), Violated, bad, true)
+			} else {
+				l.add("R-ESCSET", "codec", key, b.posOf(call), Discharged, "compact is the only consumer of the bytes", true)
+			}
+		})
+	}
+}
+
+// handlersGetTheRootSlot (R-DISPATCH): the container pointer the handlers are given is the apply
+// function's own root variable. When the dispatch sits in a helper, the helper takes that pointer
+// and passes it on; a helper that takes the container by value hands the handlers the address of
+// its copy, and a replacement of the whole document is lost when the helper returns.
+func (b *Body) handlersGetTheRootSlot(l *Ledger, ai *applyInfo) {
+	key := "apply dispatch: the handlers are given the apply function's own root slot"
+	bad := ""
+	n := 0
+	for _, k := range rfc6902Kinds {
+		call := ai.cases[k]
+		if call == nil {
+			continue
+		}
+		for _, a := range call.Call.Args {
+			if !isRootSlotPtr(a.Type()) {
+				continue
+			}
+			n++
+			switch x := a.(type) {
+			case *ssa.Alloc:
+				if call.Parent() != ai.loopFn {
+					bad = "handler " + k + " is given the address of a local of " + fname(call.Parent()) + ", which is not the function that holds the document: what the handler stores there is dropped when " + fname(call.Parent()) + " returns"
+				}
+			case *ssa.Parameter:
+				if ai.viaCall == nil || x.Parent() != ai.fn {
+					bad = "handler " + k + " is given a parameter of " + fname(x.Parent()) + " that is not traced to the apply loop"
+				} else if pi := paramIdx(x); pi < len(ai.viaCall.Call.Args) {
+					if _, isAl := ai.viaCall.Call.Args[pi].(*ssa.Alloc); !isAl {
+						bad = "the root slot handed to the dispatch helper is " + describeValue(ai.viaCall.Call.Args[pi]) + ", not the address of the apply function's root variable"
+					}
+				}
+			default:
+				bad = "handler " + k + " is given " + describeValue(a) + " as the root slot"
+			}
+		}
+	}
+	if n == 0 {
+		return
+	}
+	if bad != "" {
+		l.add("R-DISPATCH", b.Name, key, b.rel(ai.fn.Pos()), Violated, bad, true)
+	} else {
+		l.add("R-DISPATCH", b.Name, key, b.rel(ai.fn.Pos()), Discharged, fmt.Sprintf("%d handler call(s), each with the address of the root variable of %s (handed through the dispatch helper where there is one)", n, fname(ai.loopFn)), true)
+	}
+}
+
+// commandOptionsAndFiles (R-CMD): (ix) when the command applies a patch with explicit options,
+// those options come from NewApplyOptions() — a composite literal leaves every switch the
+// command does not name at its zero value (SupportNegativeIndices and EscapeHTML off), so the
+// command no longer prints what the library's Apply gives; (x) inside the loop over the -p
+// values every iteration reaches DecodePatch: a file is decoded or the command fails — an
+// iteration that moves on without decoding (an "empty file" shortcut) applies fewer patches
+// than were named, and exits 0.
+func (b *Body) commandOptionsAndFiles(l *Ledger, lab string, fns []*ssa.Function) {
+	var optCalls, decodes []*ssa.Call
+	for _, fn := range fns {
+		allInstrs(fn, func(i ssa.Instruction) {
+			call, ok := i.(*ssa.Call)
+			if !ok {
+				return
+			}
+			f := call.Call.StaticCallee()
+			if f == nil || f.Pkg != b.Lib {
+				return
+			}
+			if recvTypeName(f) == "Patch" && strings.HasSuffix(f.Name(), "WithOptions") {
+				optCalls = append(optCalls, call)
+			}
+			if f.Name() == "DecodePatch" {
+				decodes = append(decodes, call)
+			}
+		})
+	}
+	for n, call := range optCalls {
+		key := fmt.Sprintf("(ix) options #%d handed to the library start from NewApplyOptions()", n+1)
+		opt := call.Call.Args[len(call.Call.Args)-1]
+		ok := false
+		var walk func(v ssa.Value, d int)
+		walk = func(v ssa.Value, d int) {
+			if d > 4 {
+				return
+			}
+			switch x := v.(type) {
+			case *ssa.Call:
+				if f := x.Call.StaticCallee(); f != nil && f.Pkg == b.Lib && f.Name() == "NewApplyOptions" {
+					ok = true
+				}
+			case *ssa.Phi:
+				for _, e := range x.Edges {
+					walk(e, d+1)
+				}
+			case *ssa.UnOp:
+				if al, isAl := x.X.(*ssa.Alloc); isAl {
+					for _, r := range *al.Referrers() {
+						if st, isSt := r.(*ssa.Store); isSt && st.Addr == ssa.Value(al) {
+							walk(st.Val, d+1)
+						}
+					}
+				}
+			}
+		}
+		walk(opt, 0)
+		if ok {
+			l.add("R-CMD", lab, key, b.posOf(call), Discharged, "the options value is the result of NewApplyOptions()", true)
+		} else {
+			l.add("R-CMD", lab, key, b.posOf(call), Violated, "the options are "+describeValue(opt)+", not the result of NewApplyOptions(): switches the command does not set are false instead of the library's defaults (negative indices, HTML escaping), so the command's output differs from the library's Apply", true)
+		}
+	}
+	for n, dc := range decodes {
+		h := innermostLoopHeader(dc.Block())
+		if h == nil {
+			continue
+		}
+		key := fmt.Sprintf("(x) DecodePatch #%d runs for every -p value: no iteration moves on without it", n+1)
+		bad := ""
+		for _, p := range h.Preds {
+			if h.Dominates(p) && !dc.Block().Dominates(p) {
+				bad = "the loop can start its next iteration (from " + b.posOf(lastInstr(p)) + ") without having decoded the current file: a patch file that was named is not applied, and the command still exits 0"
+			}
+		}
+		if bad != "" {
+			l.add("R-CMD", lab, key, b.posOf(dc), Violated, bad, true)
+		} else {
+			l.add("R-CMD", lab, key, b.posOf(dc), Discharged, "the call dominates the loop's back edge", true)
+		}
+	}
+}
+
+// rescanNumberBytes (R-TABLES, codec): the decoder finds the end of a number literal by
+// skipping the bytes a number can hold. The validity-assuming decoder relies on that loop
+// stopping exactly where the scanner's number ended: the set of bytes it runs over is the ten
+// digits and . e E + - whether it is spelled as a switch or as a look-up in a constant table.
+// (A set that lacks E ends the literal 1E5 after the 1: the decoder is out of step with the
+// text it was promised to be well-formed, and panics or reads another value.)
+func (b *Body) rescanNumberBytes(l *Ledger) {
+	if b.Codec == nil {
+		return
+	}
+	key := "rescanLiteral: a number literal is skipped over exactly the bytes a number can hold"
+	fn := b.method(b.Codec, "decodeState", "rescanLiteral")
+	if fn == nil || len(fn.Blocks) == 0 {
+		l.add("R-TABLES", "codec", key, "", Undecided, "rescanLiteral not found", false)
+		return
+	}
+	tables := map[*ssa.Global]*[256]bool{}
+	for name, m := range b.Codec.Members {
+		if g, ok := m.(*ssa.Global); ok {
+			if at, isArr := g.Type().(*types.Pointer).Elem().Underlying().(*types.Array); isArr {
+				if bt, isB := at.Elem().Underlying().(*types.Basic); isB && bt.Kind() == types.Bool && at.Len() <= 256 {
+					if t, _, ok := b.boolTable(b.Codec, name); ok {
+						tt := t
+						tables[g] = &tt
+					}
+				}
+			}
+		}
+	}
+	want := setOf('0', '1', '2', '3', '4', '5', '6', '7', '8', '9', '.', 'e', 'E', '+', '-')
+	found, bestSize := 0, 0
+	bad := ""
+	var pos string
+	allInstrs(fn, func(i ssa.Instruction) {
+		ld, ok := i.(*ssa.UnOp)
+		if !ok || ld.Op != token.MUL {
+			return
+		}
+		ia, ok := ld.X.(*ssa.IndexAddr)
+		if !ok || !isByteSlice(ia.X.Type()) {
+			return
+		}
+		h := innermostLoopHeader(ld.Block())
+		if h == nil {
+			return
+		}
+		var got bset
+		for _, p := range h.Preds {
+			if !h.Dominates(p) || len(p.Instrs) == 0 {
+				continue
+			}
+			s, err := b.reachSet(fn, ld, nil, tables, p.Instrs[0])
+			if err != "" {
+				return
+			}
+			got = got.or(s)
+		}
+		digits := true
+		for c := '0'; c <= '9'; c++ {
+			if !got.has(int(c)) {
+				digits = false
+			}
+		}
+		if !digits {
+			return
+		}
+		// of the loops that run over the digits (the string scan does, too) the number scan
+		// is the one with the smallest set
+		size := 0
+		for c := 0; c < 256; c++ {
+			if got.has(c) {
+				size++
+			}
+		}
+		if found > 0 && size >= bestSize {
+			return
+		}
+		found++
+		bestSize = size
+		pos = b.posOf(ld)
+		bad = ""
+		if got != want {
+			bad = "the loop over the byte read at " + b.posOf(ld) + " runs over " + got.String() + ", a number holds " + want.String() + ": the decoder ends (or extends) a number literal where the scanner did not"
+		}
+	})
+	switch {
+	case found == 0:
+		l.add("R-TABLES", "codec", key, b.rel(fn.Pos()), Undecided, "no loop of rescanLiteral runs over the digits: the number scan was not recognised", true)
+	case bad != "":
+		l.add("R-TABLES", "codec", key, pos, Violated, bad, true)
+	default:
+		l.add("R-TABLES", "codec", key, pos, Discharged, "continue set of the number loop computed by byte-path enumeration: "+want.String(), true)
+	}
+}
+
+// surrogatePairs (R-TABLES, codec): what the string decoder writes for \uXXXX is a code point
+// that came out of the standard library or straight out of the four hex digits — the pair
+// \uD83D\uDE00 through utf16.DecodeRune, a single escape through getu4, raw text through
+// utf8.DecodeRune, or the replacement character. A rune computed by arithmetic of the
+// decoder's own is not decided here (hand-written range tests for the two halves are where
+// off-by-one errors live: a low half bounded by < 0xDFFF loses every pair ending in DFFF).
+func (b *Body) surrogatePairs(l *Ledger) {
+	if b.Codec == nil {
+		return
+	}
+	fn := fnOf(b.Codec, "unquoteBytes")
+	key := "unquoteBytes: every rune written comes from utf16.DecodeRune, utf8.DecodeRune, the four hex digits or a constant"
+	if fn == nil || len(fn.Blocks) == 0 {
+		l.add("R-TABLES", "codec", key, "", Undecided, "unquoteBytes not found", false)
+		return
+	}
+	getu4 := fnOf(b.Codec, "getu4")
+	var admissible func(v ssa.Value, d int) bool
+	admissible = func(v ssa.Value, d int) bool {
+		if d > 6 {
+			return false
+		}
+		v = unwrapConv(v)
+		switch x := v.(type) {
+		case *ssa.Const:
+			return true
+		case *ssa.Phi:
+			for _, e := range x.Edges {
+				if !admissible(e, d+1) {
+					return false
+				}
+			}
+			return true
+		case *ssa.Extract:
+			if call, ok := x.Tuple.(*ssa.Call); ok {
+				switch stdName(call.Call.StaticCallee()) {
+				case "unicode/utf8.DecodeRune", "unicode/utf8.DecodeRuneInString":
+					return x.Index == 0
+				}
+			}
+		case *ssa.Call:
+			f := x.Call.StaticCallee()
+			if f == nil {
+				return false
+			}
+			if getu4 != nil && f == getu4 {
+				return true
+			}
+			if stdName(f) == "unicode/utf16.DecodeRune" {
+				for _, a := range x.Call.Args {
+					c, ok := unwrapConv(a).(*ssa.Call)
+					if !ok || c.Call.StaticCallee() != getu4 {
+						return false
+					}
+				}
+				return true
+			}
+		}
+		return false
+	}
+	n, pairs := 0, 0
+	bad := ""
+	allInstrs(fn, func(i ssa.Instruction) {
+		call, ok := i.(*ssa.Call)
+		if !ok {
+			return
+		}
+		switch stdName(call.Call.StaticCallee()) {
+		case "unicode/utf16.DecodeRune":
+			pairs++
+		case "unicode/utf8.EncodeRune", "unicode/utf8.AppendRune":
+			n++
+			if !admissible(call.Call.Args[1], 0) {
+				bad = "the rune written at " + b.posOf(call) + " is " + describeValue(call.Call.Args[1]) + ", computed by the decoder itself: the pairing of surrogate halves is not the standard library's and is not decided here"
+			}
+		}
+	})
+	switch {
+	case bad != "":
+		l.add("R-TABLES", "codec", key, b.rel(fn.Pos()), Violated, bad, true)
+	case n == 0 || pairs == 0:
+		l.add("R-TABLES", "codec", key, b.rel(fn.Pos()), Undecided, fmt.Sprintf("%d rune write(s), %d utf16.DecodeRune call(s): the decoding of escapes was not recognised", n, pairs), true)
+	default:
+		l.add("R-TABLES", "codec", key, b.rel(fn.Pos()), Discharged, fmt.Sprintf("%d rune write(s); the surrogate pair goes through utf16.DecodeRune on two getu4 results", n), true)
 	}
 }
